@@ -15,7 +15,7 @@ def pOutcome : List String → Option (Outcome × List String)
 def pTransport : String → Option Transport
   | "pipe" => some .pipe
   | "http" => some .http
-  | _ => none
+  | s => if s.startsWith "httpx:" then some .http else none   -- HTTP call carrying an X-Request-ID header
 
 def parseUnaryCall (ws : List String) : Option (Transport × UMethod × Bytes × Bytes × UnaryScript) :=
   match ws with
